@@ -116,7 +116,10 @@ def tla_set(xs):
     return "{" + ", ".join('"%s"' % x for x in xs) + "}"
 
 
-TRACE_INVS = ["C01", "C02", "C03", "C04", "C05", "C12"]
+TRACE_INVS = ["C01_AtMostOnce", "C01_RealTimeFIFO", "C01_NoOverlap", "C01_Fold", "C02_OwnResult", "C02_Resolves",
+              "C03_Order", "C03_HandlersInside", "C03_Graceful", "C03_StartErr",
+              "C04_Drain", "C04_NoLate", "C04_StopTerminates", "C04_AnnounceAfter",
+              "C05_KeepAlive", "C05_DrainOnDrop", "C05_UpgradeDead", "C06", "C07", "C08", "C10", "C11", "C12", "C14", "C15", "C16", "C17"]
 
 
 def validate_shard(traces, dev, workdir, tag, timeout=600):
@@ -163,6 +166,16 @@ def validate_shard(traces, dev, workdir, tag, timeout=600):
                 results[i] = {"ok": True}
             todo = []
             break
+        m = re.search(r"Invariant (\w+) is violated", out)
+        if m:
+            ls = re.findall(r"/\\ l = (\d+)", out)
+            p = int(ls[-1]) if ls else 1
+            k, off = locate(max(1, p - 1))
+            for i in todo[:k]:
+                results[i] = {"ok": True}
+            results[todo[k]] = {"ok": False, "kind": "invariant", "invariant": m.group(1), "offset": off, "props": [m.group(1)[:3]]}
+            todo = todo[k + 1:]
+            continue
         m = re.search(r'<<"REJECT", (\d+), "(.*)", "(.*)", "(.*)">>', out)
         if m:
             p = int(m.group(1))
@@ -173,16 +186,6 @@ def validate_shard(traces, dev, workdir, tag, timeout=600):
             for i in todo[:k]:
                 results[i] = {"ok": True}
             results[todo[k]] = {"ok": False, "kind": "reject", "offset": off, "event": ev, "guards": sorted(guards), "props": sorted(props)}
-            todo = todo[k + 1:]
-            continue
-        m = re.search(r"Invariant (\w+) is violated", out)
-        if m:
-            ls = re.findall(r"/\\ l = (\d+)", out)
-            p = int(ls[-1]) if ls else 1
-            k, off = locate(max(1, p - 1))
-            for i in todo[:k]:
-                results[i] = {"ok": True}
-            results[todo[k]] = {"ok": False, "kind": "invariant", "invariant": m.group(1), "offset": off, "props": [m.group(1)[:3]]}
             todo = todo[k + 1:]
             continue
         m = re.search(r"(Error: .*?)(?:Error: The behavior|$)", out, re.S)
@@ -295,6 +298,9 @@ class Prog:
                 return True
             if op == "sleep":
                 self.ops.append({"op": "sleep", "d": rng.randint(1, 3)})
+                return True
+            if op in ("feed", "end_stream"):
+                self.ops.append({"op": op, "a": "a1", "d": rng.randint(1, 3)})
                 return True
             if op in ("from_registry", "setup", "unregister", "try_from_registry", "already_running"):
                 o = {"op": op, "ty": rng.choice(self.types)}
